@@ -97,9 +97,11 @@ impl<'n> TryFromNode<'n> for Field {
                 });
             }
 
-            let namespace: Option<Rc<Namespace>> = namespace_ref
-                .and_then(|ns| doc.find_namespace_by_abbreviation(ns))
-                .cloned();
+            // a reference without a prefix (the schema's namespace is the default namespace) stays in this schema
+            let namespace: Option<Rc<Namespace>> = match namespace_ref {
+                Some(ns) => doc.find_namespace_by_abbreviation(ns).cloned(),
+                None => doc.current_target_namespace.clone(),
+            };
 
             let wanted = if node.tag_name().name() == "group" { Wanted::Type } else { Wanted::Element };
             // a member that refers to a component only needs its name: the component is not converted here (its
